@@ -36,6 +36,9 @@ def module(rng, i):
         for s in body: text += GP.src_stmt(s, lay, 1)
         if result is not None: text += "\treturn: %s\n" % GP.src_expr(result, lay, result[0] != "lit")
         text += "}\n"
+        # a function with a body may also be `extern` (its flags are then a set of two when it is public)
+        if rng.random() < 0.25 and ret != "bool" and all(t in GP.PRIMS and t not in ("bool", "char8", "i128", "u128") for _, t in params) and (ret is None or (ret in GP.PRIMS and ret not in ("bool", "char8", "i128", "u128"))):
+            text = "extern " + text
         extra.append(("fn", text))
         if rng.random() < 0.15:
             extra.append(("fnhead", "extern fn ext%d(a: i32, b: []u8) -> i32;\n" % len(extra)))
